@@ -37,43 +37,60 @@ IGNORED = ['chiral', 'trans', 'out']
 # ---------------------------------------------------------------------------
 # strategy
 
-def _mol(name):
-    def body(t):
-        atom_names, bead_names = t
-        nb = len(bead_names)
-        target = st.fixed_dictionaries({'bead': st.integers(0, nb - 1), 'null': st.sampled_from([False, False, False, True]),
-                                        'count': st.sampled_from([1, 1, 1, 2, 3])})
-        atom = st.fixed_dictionaries({
-            'targets': st.lists(target, max_size=3, unique_by=lambda d: d['bead']),
-            'absent_in': st.lists(st.sampled_from(FROM_FFS), max_size=1),
-            'number': st.integers(0, 40),
-        })
-        fflist = lambda pool: st.one_of(st.just([]), st.lists(st.sampled_from(pool + [UNKNOWN_FF]), min_size=1, max_size=3))
-        return st.fixed_dictionaries({
-            'name': st.just(name), 'atom_names': st.just(atom_names), 'bead_names': st.just(bead_names),
-            'atoms': st.lists(atom, min_size=len(atom_names), max_size=len(atom_names)),
-            'unlisted_atoms': st.lists(st.sampled_from(['XU1', 'XU2']), max_size=2, unique=True),
-            'unlisted_beads': st.lists(st.sampled_from(['VS1', 'VS2']), max_size=1),
-            'from': fflist(FROM_FFS), 'mapping': st.one_of(st.just([]), st.just([]), st.lists(st.sampled_from(FROM_FFS), min_size=1, max_size=2)),
-            'to': fflist(TO_FFS),
-            'lacking': st.lists(st.sampled_from(FROM_FFS + TO_FFS), max_size=2, unique=True),
-            'extra': st.lists(st.sampled_from(['SCP', 'SCN', 'VS1']), max_size=2),
-            'ignored': st.lists(st.fixed_dictionaries({'sec': st.sampled_from(IGNORED), 'n': st.integers(0, 2)}), max_size=2),
-            'martini_lines': st.integers(1, 2),
-            'split_atoms': st.integers(0, 6), 'order': st.integers(0, 2 ** 20),
-            'one_per_line': st.booleans(),
-        })
-    return st.tuples(st.lists(st.sampled_from(ATOMS), min_size=1, max_size=6, unique=True),
-                     st.lists(st.sampled_from(BEADS), min_size=1, max_size=4, unique=True)).flatmap(body)
+_TARGET = st.fixed_dictionaries({'bead': st.integers(0, 11), 'null': st.sampled_from([False, False, False, True]),
+                                 'count': st.sampled_from([1, 1, 1, 2, 3])})
+_ATOM = st.fixed_dictionaries({'name': st.sampled_from(ATOMS), 'targets': st.lists(_TARGET, max_size=3),
+                               'absent_in': st.lists(st.sampled_from(FROM_FFS), max_size=1), 'number': st.integers(0, 40)})
+
+
+def _fflist(pool):
+    return st.one_of(st.just([]), st.lists(st.sampled_from(pool + [UNKNOWN_FF]), min_size=1, max_size=3))
+
+
+_MOL = st.fixed_dictionaries({
+    'suffix': st.sampled_from(['ALA', 'GLY', 'CHOL']),
+    'atoms': st.lists(_ATOM, min_size=1, max_size=6), 'bead_names': st.lists(st.sampled_from(BEADS), min_size=1, max_size=4),
+    'unlisted_atoms': st.lists(st.sampled_from(['XU1', 'XU2']), max_size=2, unique=True),
+    'unlisted_beads': st.lists(st.sampled_from(['VS1', 'VS2']), max_size=1),
+    'from': _fflist(FROM_FFS), 'mapping': st.one_of(st.just([]), st.just([]), st.lists(st.sampled_from(FROM_FFS), min_size=1, max_size=2)),
+    'to': _fflist(TO_FFS),
+    'lacking': st.lists(st.sampled_from(FROM_FFS + TO_FFS), max_size=2, unique=True),
+    'extra': st.lists(st.sampled_from(['SCP', 'SCN', 'VS1']), max_size=2),
+    'ignored': st.lists(st.fixed_dictionaries({'sec': st.sampled_from(IGNORED), 'n': st.integers(0, 2)}), max_size=2),
+    'martini_lines': st.integers(1, 2),
+    'split_atoms': st.integers(0, 6), 'order': st.integers(0, 2 ** 20),
+    'one_per_line': st.booleans(),
+})
+
+
+def assemble(raw):
+    """Normalise the raw draw: unique atom / bead names per molecule, targets unique per bead, unique molecule names."""
+    mols = []
+    for i, rm in enumerate(raw['mols']):
+        beads = list(dict.fromkeys(rm['bead_names']))
+        atoms, names = [], []
+        for ra in rm['atoms']:
+            if ra['name'] in names:
+                continue
+            names.append(ra['name'])
+            targets, seen = [], set()
+            for t in ra['targets']:
+                b = t['bead'] % len(beads)
+                if b not in seen:
+                    seen.add(b)
+                    targets.append(dict(t, bead=b))
+            atoms.append({'targets': targets, 'absent_in': ra['absent_in'], 'number': ra['number']})
+        mol = dict(rm, name='M%d%s' % (i, rm['suffix']), atom_names=names, bead_names=beads, atoms=atoms)
+        del mol['suffix']
+        mols.append(mol)
+    return dict(raw, mols=mols)
 
 
 def file_strategy(tier):
-    def body(names):
-        return st.fixed_dictionaries({
-            'mols': st.tuples(*[_mol('M%d%s' % (i, nm)) for i, nm in enumerate(names)]).map(list),
-            'keys': st.fixed_dictionaries({'from': st.sampled_from(['name', 'int']), 'to': st.sampled_from(['name', 'int'])}),
-            'preamble': st.booleans(), 'layout': st.integers(0, 2 ** 30)})
-    return st.lists(st.sampled_from(['ALA', 'GLY', 'CHOL']), min_size=1, max_size=3).flatmap(body)
+    return st.fixed_dictionaries({
+        'mols': st.lists(_MOL, min_size=1, max_size=3),
+        'keys': st.fixed_dictionaries({'from': st.sampled_from(['name', 'int']), 'to': st.sampled_from(['name', 'int'])}),
+        'preamble': st.booleans(), 'layout': st.integers(0, 2 ** 30)}).map(assemble)
 
 
 # ---------------------------------------------------------------------------
